@@ -17,6 +17,6 @@ out=["# Seeded property-breaking changes","",
 "| seed | property | change | needs | first run | caught now | by (clause) / history |","|---|---|---|---|---|---|---|"]
 for r in rows: out.append("| %s | %s | %s | %s | %s | %s | %s |" % r)
 n=len(rows); missed=sum(1 for r in rows if r[4]=='missed')
-out+=["",f"{n} changes, {missed} missed by the version of the checks they were first run against; all {n} are caught now. Every miss was a gap in an alphabet, never in an engine or an oracle, and every gap was closed by widening the alphabet in a general way (not by adding the seed's input): adversarial string contents for every string-valued member (C04); whitespace layouts (C05); history documents that reuse identifiers with conflicting structure (C07) and identifiers inside the library's reserved namespace (C07); several edge objects per source and type and duplicated list elements in the reflection-driven deviation generator (C13, also used by C12/C14); identifier pairs that any normalisation would merge and equal-length document pairs (C19); four-node containment shapes with cycles among non-root nodes (C03); near-miss purl spellings (C16); rich documents with reference-less components in the concurrency alphabet (C17); sub-second date deviations that cross or stay within the second (C14); names with parentheses plus e-mail (C01); several hashed external references per node (C02)."]
+out+=["",f"{n} changes in four rounds, {missed} missed by the version of the checks they were first run against. All are caught now except two that need a remark: C08d has no observable effect any more since the genuine defect it relied on was repaired (fix b11b9db, found on the unchanged tree by the very widening that C08d prompted), and C05d (overlapping parses) is caught by the concurrency check C17, not by the sequential C05. Rounds 1-3: every miss was a gap in an alphabet. Round 4 (authors were told what the three earlier changes for their property were and asked for something that needs a specific environment, history, size relation or value class): 16 of 20 were missed on the first run; 13 were alphabet gaps (environment: local time zone; value classes: empty non-nil maps, near-misses of valid values, strings that coincide under a normalisation, printf verbs, purls with qualifiers and subpath, malformed identifier shapes; list shapes: mixed element kinds, four-node containment shapes; histories: live argument lists edited after use, failing calls, stores after a crash; operands one invisible deviation apart), one was an ORACLE gap (C19d: a store that reports success under an injected fault was not required to have stored the document), and one was a SEAM gap (C17d: sync/atomic was outside the scheduler seam and every scenario started after initialisation). Every gap was closed in a general way, never by adding the seed's input; see history.json for each."]
 open('seeded/README.md','w').write("\n".join(out)+"\n")
 print(n,missed)
